@@ -424,6 +424,30 @@ func recoverAndProbe(dir string, bigFirst bool) (res string) {
 	snap["\x01post1"] = "P1"
 	snap["\x01post2"] = strings.Repeat("Q", 300)
 	snap["\x01post3"] = strings.Repeat("R", 40000)
+	// what was acknowledged after the recovery is visible at once (not only after the next restart)
+	if post == "ok" {
+		live := map[string]string{}
+		it1, _ := e.GetIterator()
+		for it1.SeekToFirst(); it1.Valid(); it1.Next() {
+			if !it1.IsTombstone() {
+				live[string(it1.Key())] = string(it1.Value())
+			}
+		}
+		for k, v := range snap {
+			if live[k] != v {
+				post = fmt.Sprintf("invisible(%x)", k)
+				break
+			}
+		}
+		if post == "ok" && len(live) != len(snap) {
+			post = fmt.Sprintf("livecount(%d!=%d)", len(live), len(snap))
+		}
+		for _, k := range []string{"\x01post1", "\x01post2", "\x01post3"} {
+			if v, err := e.Get([]byte(k)); post == "ok" && (err != nil || string(v) != snap[k]) {
+				post = fmt.Sprintf("get-invisible(%x)", k)
+			}
+		}
+	}
 	if err := e.Close(); err != nil {
 		post = "closeerr"
 	}
